@@ -25,10 +25,22 @@
                          primitive appends to a list, the store is a set); orders queued as Raised / Accepted in ascending
                          id order above what is queued, the raised ones below the counter (the primitives append, the
                          store keeps id-ordered sets: C04_onstore_enterprise side conditions).
-   NOT done for this module (see the report): import into the EMPTY store (the relation Rent asks for the counter cell,
-   so the empty store represents no state: the first two writes of InitGenesis have to be peeled off by hand) and the
-   round trip on bytes.
-   Proofs: proofs/GeneratedEnterpriseGenesisOnStoreEq.v. *)
+   Sections 4-6 (proofs/GeneratedEnterpriseGenesisOnStoreRoundtrip.v): import into the EMPTY store and the round trip on
+   bytes.  The relation Rent asks for the counter cell, so [] represents no state: the first two writes of InitGenesis
+   are run by hand (C15_onstore_ent_import_empty_first_writes), the simulation applies from the store they leave.
+     blank_state         the abstract state with no order, queue, whitelist, book: doc_side on it loses its "above what
+                         is queued / not yet whitelisted" clauses (C15_onstore_ent_doc_side_blank_spelled).
+     valid parameters    needed: InitGenesis drops the error of SetParams (as the registries do), from [] the Params cell
+                         is then never written and the store represents the imported state with the ZERO parameters, not
+                         what rendering (1) builds from a fresh state (C15_onstore_ent_import_empty_invalid_simulates, ..._invalid_refuted).
+     round trip          Rwi, the invariant of the module (ent_inv, as in the C15_generated_ent theorems), a duplicate-free bank,
+                         ent_key_ordered, a signer list shorter than 2^64 (ent_params_range).  Byte-identical when the two
+                         totals are recorded (they are from the first lock / after every InitGenesis); needed:
+                         C15_onstore_ent_roundtrip_totals_refuted.  Key order is asked because the proof goes through
+                         rendering (1)'s export; the statement without it is NOT proved (it holds in the instance
+                         C15_onstore_ent_roundtrip_unordered_example).  The abstract state determines the bytes unless its
+                         parameters are the zero Params (C15_onstore_ent_store_unique, ..._zero_params_refuted).
+   Proofs: proofs/GeneratedEnterpriseGenesisOnStoreEq.v, proofs/GeneratedEnterpriseGenesisOnStoreRoundtrip.v. *)
 From MC Require Import lib.Prelude lib.AMap lib.GoSdk GeneratedEnterpriseTypes model.Bank model.Enterprise model.EnterpriseSpec
   model.Keys model.KeyPrims model.KVStore model.StoreCodecPrims model.EnterpriseKeeperPrims model.EnterpriseStoreWorld
   model.EnterpriseGenSpec GeneratedKeys GeneratedEnterpriseStore.
@@ -185,3 +197,228 @@ Theorem C15_onstore_ent_example_by_theorem :
   S.go_ExportGenesis exg_sw1 <> K.go_ExportGenesis exg_kw1.
 Proof. exact (conj exg_Rwi0 (conj exg_doc_side os_ent_genesis_ex_by_theorem)). Qed.
 Print Assumptions C15_onstore_ent_example_by_theorem.
+
+(* ------------------------------------------------------------------ *)
+(* 4. InitGenesis into the EMPTY byte store                             *)
+(* ------------------------------------------------------------------ *)
+From MC Require Import model.Genesis model.EnterpriseGenesisGenSpec proofs.BankProofs proofs.EnterpriseProofs proofs.GenesisProofs
+  proofs.GeneratedEnterpriseGenesisOnStoreRoundtrip.
+
+Theorem C15_onstore_ent_doc_side_blank_spelled : forall (dom : Z -> Prop) (d : go_GenesisState),
+  doc_side dom blank_state d <->
+  (ent_params_range (GenesisState_Params d) /\ denom_ok (GenesisState_Params d) /\
+   0 <= GenesisState_StartingPurchaseOrderId d < 2 ^ 64 /\
+   Forall (fun a => addr_parses a = true -> dom a) (GenesisState_Whitelist d) /\ NoDup (GenesisState_Whitelist d) /\
+   Forall (fun po => 0 <= EnterpriseUndPurchaseOrder_Id po < 2 ^ 64 /\
+                     (addr_parses (EnterpriseUndPurchaseOrder_Purchaser po) = true -> dom (EnterpriseUndPurchaseOrder_Purchaser po)))
+          (GenesisState_PurchaseOrders d) /\
+   StronglySorted Z.lt (raised_ids (GenesisState_PurchaseOrders d)) /\
+   (forall r, In r (raised_ids (GenesisState_PurchaseOrders d)) -> r < GenesisState_StartingPurchaseOrderId d) /\
+   StronglySorted Z.lt (accepted_ids (GenesisState_PurchaseOrders d)) /\
+   Forall (fun l => dom (LockedUnd_Owner l)) (GenesisState_LockedUnd d) /\
+   Forall (fun l => dom (SpentEFUND_Owner l)) (GenesisState_SpentEfund d)).
+Proof. exact doc_side_blank_spelled. Qed.
+Print Assumptions C15_onstore_ent_doc_side_blank_spelled.
+
+(* InitGenesis on [] is InitGenesis on the store its first two writes leave (the Params cell only when Params.Validate
+   accepts, the counter cell): they are written again, to the same effect *)
+Theorem C15_onstore_ent_import_empty_first_writes :
+  forall (emb : Z -> list N) (unemb : list N -> Z) (now : Z) (b : bank) (d : go_GenesisState),
+  (forall c, K.go_Params_Validate (GenesisState_Params d) <> Panic c) ->
+  S.go_InitGenesis (mk_esworld emb unemb now b []) d =
+  S.go_InitGenesis
+    (mk_esworld emb unemb now b
+       (okv_set (if match K.go_Params_Validate (GenesisState_Params d) with Ok _ => true | _ => false end
+                 then okv_set [] kparams (EV_Params (GenesisState_Params d)) else [])
+                khighest (v_id (GenesisState_StartingPurchaseOrderId d)))) d.
+Proof. exact os_InitGenesis_empty_head. Qed.
+Print Assumptions C15_onstore_ent_import_empty_first_writes.
+
+(* from []: rendering (2) against rendering (1) started on ANY fresh abstract state - Ok with Ok and related worlds,
+   Panic with Panic and equal codes *)
+Theorem C15_onstore_ent_import_empty_simulates :
+  forall (dom : Z -> Prop) (emb : Z -> list N) (unemb : list N -> Z), emb_hyps dom emb unemb ->
+  forall (now : Z) (b : bank) (p0 : ent_params) (d : go_GenesisState),
+  ent_params_valid (params_of_go (GenesisState_Params d)) = true -> doc_side dom blank_state d ->
+  sim dom emb unemb (K.go_InitGenesis (fresh_eworld now b p0) d) (S.go_InitGenesis (mk_esworld emb unemb now b []) d).
+Proof. exact os_InitGenesis_empty_sim. Qed.
+Print Assumptions C15_onstore_ent_import_empty_simulates.
+
+(* ... Ok, and the bytes represent the MODEL's import of the document.  The three Forall are what the keeper checks
+   entry by entry (a failure is a panic); the bank: no (account, denomination) twice, no negative row of the module
+   account (C15_generated_ent_import) *)
+Theorem C15_onstore_ent_import_empty :
+  forall (dom : Z -> Prop) (emb : Z -> list N) (unemb : list N -> Z), emb_hyps dom emb unemb ->
+  forall (now : Z) (b : bank) (p0 : ent_params) (d : go_GenesisState) (st' : ent_state),
+  ent_params_valid (params_of_go (GenesisState_Params d)) = true -> doc_side dom blank_state d ->
+  Forall (fun a => a <> BAD_ADDR /\ a <> EMPTY_ADDR) (GenesisState_Whitelist d) ->
+  Forall (fun g => 1 <= EnterpriseUndPurchaseOrder_Status g <= 4) (GenesisState_PurchaseOrders d) ->
+  Forall (fun l => 0 <= snd (LockedUnd_Amount l)) (GenesisState_LockedUnd d) ->
+  bank_wf b -> (forall dn v, In ((ENT_MACC, dn), v) (bal b) -> 0 <= v) ->
+  import_ent b (gen_ent_of_go d) = Some st' ->
+  exists s',
+    S.go_InitGenesis (mk_esworld emb unemb now b []) d = Ok (mk_esworld emb unemb now b s', tt) /\
+    K.go_InitGenesis (fresh_eworld now b p0) d = Ok (mk_eworld now b st', tt) /\
+    Rent dom emb s' st' /\ einv dom st'.
+Proof. exact os_InitGenesis_empty. Qed.
+Print Assumptions C15_onstore_ent_import_empty.
+
+(* conversely, no hypothesis on the entries: an Ok answer means the model imports and the bytes represent its state *)
+Theorem C15_onstore_ent_import_empty_ok :
+  forall (dom : Z -> Prop) (emb : Z -> list N) (unemb : list N -> Z), emb_hyps dom emb unemb ->
+  forall (now : Z) (b : bank) (d : go_GenesisState) (ws' : esworld),
+  ent_params_valid (params_of_go (GenesisState_Params d)) = true -> doc_side dom blank_state d ->
+  bank_wf b -> (forall dn v, In ((ENT_MACC, dn), v) (bal b) -> 0 <= v) ->
+  S.go_InitGenesis (mk_esworld emb unemb now b []) d = Ok (ws', tt) ->
+  exists st', import_ent b (gen_ent_of_go d) = Some st' /\ ws' = mk_esworld emb unemb now b (esw_store ws') /\
+              Rent dom emb (esw_store ws') st' /\ einv dom st'.
+Proof. exact os_InitGenesis_empty_ok. Qed.
+Print Assumptions C15_onstore_ent_import_empty_ok.
+
+Theorem C15_onstore_ent_import_empty_refused :
+  forall (dom : Z -> Prop) (emb : Z -> list N) (unemb : list N -> Z), emb_hyps dom emb unemb ->
+  forall (now : Z) (b : bank) (d : go_GenesisState),
+  ent_params_valid (params_of_go (GenesisState_Params d)) = true -> doc_side dom blank_state d ->
+  bank_wf b -> (forall dn v, In ((ENT_MACC, dn), v) (bal b) -> 0 <= v) ->
+  import_ent b (gen_ent_of_go d) = None ->
+  exists c, S.go_InitGenesis (mk_esworld emb unemb now b []) d = Panic c.
+Proof. exact os_InitGenesis_empty_none. Qed.
+Print Assumptions C15_onstore_ent_import_empty_refused.
+
+(* parameters that do not validate: the error is DROPPED; from [] the store is then related to what rendering (1) builds
+   from the blank state holding the zero parameters and the document's counter *)
+Theorem C15_onstore_ent_import_empty_invalid_simulates :
+  forall (dom : Z -> Prop) (emb : Z -> list N) (unemb : list N -> Z), emb_hyps dom emb unemb ->
+  forall (now : Z) (b : bank) (d : go_GenesisState),
+  ent_params_valid (params_of_go (GenesisState_Params d)) = false -> doc_side dom blank_state d ->
+  sim dom emb unemb
+    (K.go_InitGenesis (mk_eworld now b (init_state zero_go_Params (GenesisState_StartingPurchaseOrderId d))) d)
+    (S.go_InitGenesis (mk_esworld emb unemb now b []) d).
+Proof. exact os_InitGenesis_empty_invalid_sim. Qed.
+Print Assumptions C15_onstore_ent_import_empty_invalid_simulates.
+
+(* ... concretely (no accept asked for): Ok, no Params cell, GetParams reads the zero Params, the model refuses, and the
+   result is NOT related to what rendering (1) builds from a fresh state with other parameters: the validity hypothesis
+   of C15_onstore_ent_import_empty_simulates is needed *)
+Theorem C15_onstore_ent_import_empty_invalid_refuted :
+  exr_bad_doc = mk_go_GenesisState (mk_go_Params [5; 6] NUND 0 100) 1 [] [] (NUND, 0) [7] [] (NUND, 0) /\
+  doc_side os_ex_dom blank_state exr_bad_doc /\
+  ent_params_valid (params_of_go (GenesisState_Params exr_bad_doc)) = false /\
+  import_ent os_ex_bank (gen_ent_of_go exr_bad_doc) = None /\
+  exists s',
+    S.go_InitGenesis (mk_esworld os_ex_emb os_ex_unemb 0 os_ex_bank []) exr_bad_doc =
+      Ok (mk_esworld os_ex_emb os_ex_unemb 0 os_ex_bank s', tt) /\
+    okv_get s' kparams = None /\ go_st_GetParams s' = Ok zero_go_Params /\
+    (exists st',
+      K.go_InitGenesis (fresh_eworld 0 os_ex_bank (params_of_go os_ex_params)) exr_bad_doc = Ok (mk_eworld 0 os_ex_bank st', tt) /\
+      e_params st' = params_of_go os_ex_params /\ ~ Rent os_ex_dom os_ex_emb s' st') /\
+    exists w0,
+      K.go_InitGenesis (mk_eworld 0 os_ex_bank (init_state zero_go_Params 1)) exr_bad_doc = Ok (w0, tt) /\
+      e_params (ew_ent w0) = params_of_go zero_go_Params /\ Rent os_ex_dom os_ex_emb s' (ew_ent w0).
+Proof. exact (conj eq_refl os_InitGenesis_empty_invalid_refuted). Qed.
+Print Assumptions C15_onstore_ent_import_empty_invalid_refuted.
+
+(* ------------------------------------------------------------------ *)
+(* 5. export, then import into []; export again                         *)
+(* ------------------------------------------------------------------ *)
+
+Theorem C15_onstore_ent_store_unique :
+  forall (dom : Z -> Prop) (emb : Z -> list N) (s1 s2 : okv enterprise_val) (st : ent_state),
+  params_to_go (e_params st) <> zero_go_Params -> Rent dom emb s1 st -> Rent dom emb s2 st -> s1 = s2.
+Proof. exact Rent_store_unique. Qed.
+Print Assumptions C15_onstore_ent_store_unique.
+
+Theorem C15_onstore_ent_store_unique_zero_params_refuted :
+  let s1 : okv enterprise_val := okv_set [] khighest (v_id 1) in
+  let s2 : okv enterprise_val := okv_set (okv_set [] kparams (EV_Params zero_go_Params)) khighest (v_id 1) in
+  Rent os_ex_dom os_ex_emb s1 (init_state zero_go_Params 1) /\ Rent os_ex_dom os_ex_emb s2 (init_state zero_go_Params 1) /\
+  s1 <> s2.
+Proof. exact Rent_store_unique_zero_params_refuted. Qed.
+Print Assumptions C15_onstore_ent_store_unique_zero_params_refuted.
+
+(* THE ROUND TRIP ON BYTES *)
+Theorem C15_onstore_ent_roundtrip :
+  forall (dom : Z -> Prop) (emb : Z -> list N) (unemb : list N -> Z), emb_hyps dom emb unemb ->
+  forall (w : eworld) (ws : esworld) (n now' : Z),
+  Rwi dom emb unemb w ws -> ent_inv {| w_bank := ew_bank w; w_ent := ew_ent w; w_now := n |} -> bank_wf (ew_bank w) ->
+  ent_key_ordered emb (ew_ent w) -> ent_params_range (params_to_go (e_params (ew_ent w))) ->
+  exists d s',
+    S.go_ExportGenesis ws = Ok d /\
+    gen_ent_of_go d = export_ent (ew_ent w) /\
+    S.go_InitGenesis (mk_esworld emb unemb now' (esw_bank ws) []) d = Ok (mk_esworld emb unemb now' (esw_bank ws) s', tt) /\
+    Rent dom emb s' (ent_reimported (ew_ent w)) /\
+    (e_totlocked (ew_ent w) <> None /\ e_totspent (ew_ent w) <> None -> Rent dom emb s' (ew_ent w) /\ s' = esw_store ws).
+Proof. exact os_export_import_roundtrip. Qed.
+Print Assumptions C15_onstore_ent_roundtrip.
+
+Theorem C15_onstore_ent_roundtrip_totals_refuted :
+  Rwi os_ex_dom os_ex_emb os_ex_unemb os_ex_kw0 os_ex_sw0 /\
+  ent_inv {| w_bank := ew_bank os_ex_kw0; w_ent := ew_ent os_ex_kw0; w_now := 0 |} /\ bank_wf (ew_bank os_ex_kw0) /\
+  ent_key_ordered os_ex_emb (ew_ent os_ex_kw0) /\ ent_params_range (params_to_go (e_params (ew_ent os_ex_kw0))) /\
+  ~ (e_totlocked (ew_ent os_ex_kw0) <> None /\ e_totspent (ew_ent os_ex_kw0) <> None) /\
+  exists d s',
+    S.go_ExportGenesis os_ex_sw0 = Ok d /\
+    S.go_InitGenesis (mk_esworld os_ex_emb os_ex_unemb 0 os_ex_bank []) d = Ok (mk_esworld os_ex_emb os_ex_unemb 0 os_ex_bank s', tt) /\
+    List.length (esw_store os_ex_sw0) = 2%nat /\ List.length s' = 4%nat /\ s' <> esw_store os_ex_sw0.
+Proof. exact os_roundtrip_totals_refuted. Qed.
+Print Assumptions C15_onstore_ent_roundtrip_totals_refuted.
+
+(* key order is a hypothesis of C15_onstore_ent_roundtrip because its proof goes through rendering (1)'s export; in the
+   worlds of C15_onstore_ent_example (not in key order) the bytes come back all the same *)
+Theorem C15_onstore_ent_roundtrip_unordered_example :
+  Rwi os_ex_dom os_ex_emb os_ex_unemb exg_kw1 exg_sw1 /\ ~ ent_key_ordered os_ex_emb (ew_ent exg_kw1) /\
+  S.go_ExportGenesis exg_sw1 = Ok exg_doc1 /\
+  S.go_InitGenesis (mk_esworld os_ex_emb os_ex_unemb 77 exg_bank []) exg_doc1 =
+    Ok (mk_esworld os_ex_emb os_ex_unemb 77 exg_bank (esw_store exg_sw1), tt).
+Proof. exact os_roundtrip_unordered_ex. Qed.
+Print Assumptions C15_onstore_ent_roundtrip_unordered_example.
+
+Theorem C15_onstore_ent_export_import_export :
+  forall (dom : Z -> Prop) (emb : Z -> list N) (unemb : list N -> Z), emb_hyps dom emb unemb ->
+  forall (w : eworld) (ws : esworld) (n now' : Z),
+  Rwi dom emb unemb w ws -> ent_inv {| w_bank := ew_bank w; w_ent := ew_ent w; w_now := n |} -> bank_wf (ew_bank w) ->
+  ent_key_ordered emb (ew_ent w) -> ent_params_range (params_to_go (e_params (ew_ent w))) ->
+  exists d s',
+    S.go_ExportGenesis ws = Ok d /\
+    S.go_InitGenesis (mk_esworld emb unemb now' (esw_bank ws) []) d = Ok (mk_esworld emb unemb now' (esw_bank ws) s', tt) /\
+    S.go_ExportGenesis (mk_esworld emb unemb now' (esw_bank ws) s') = Ok d.
+Proof. exact os_export_import_export. Qed.
+Print Assumptions C15_onstore_ent_export_import_export.
+
+(* ------------------------------------------------------------------ *)
+(* 6. a store with history (20-byte addresses)                          *)
+(* ------------------------------------------------------------------ *)
+
+(* the two worlds a run of twenty steps from the genesis of C04_onstore_enterprise leaves (rt_hist: two accounts
+   whitelisted, five orders - two completed, one accepted and queued, one raised and queued, one rejected -, a fee paid
+   from locked tokens): 16 cells *)
+Theorem C15_onstore_ent_roundtrip_example :
+  rt_w = snd (k_run os_ex_kw0 rt_hist) /\ rt_ws = snd (s_run os_ex_sw0 rt_hist) /\
+  List.length (esw_store rt_ws) = 16%nat /\
+  balance (esw_bank rt_ws) ENT_MACC NUND = 770 /\
+  S.go_ExportGenesis rt_ws = Ok rt_doc /\
+  S.go_InitGenesis (mk_esworld os_ex_emb os_ex_unemb 1800000000 (esw_bank rt_ws) []) rt_doc =
+    Ok (mk_esworld os_ex_emb os_ex_unemb 1800000000 (esw_bank rt_ws) (esw_store rt_ws), tt) /\
+  S.go_ExportGenesis (mk_esworld os_ex_emb os_ex_unemb 1800000000 (esw_bank rt_ws) (esw_store rt_ws)) = Ok rt_doc /\
+  S.go_InitGenesis (mk_esworld os_ex_emb os_ex_unemb 1800000000 os_ex_bank []) rt_doc = Panic enterprise_PANIC.
+Proof. exact (conj (proj1 rt_defs) (conj (proj2 rt_defs) os_ent_roundtrip_ex)). Qed.
+Print Assumptions C15_onstore_ent_roundtrip_example.
+
+Theorem C15_onstore_ent_roundtrip_example_hypotheses :
+  Rwi os_ex_dom os_ex_emb os_ex_unemb rt_w rt_ws /\
+  (exists n, ent_inv {| w_bank := ew_bank rt_w; w_ent := ew_ent rt_w; w_now := n |}) /\
+  bank_wf (ew_bank rt_w) /\ ent_key_ordered os_ex_emb (ew_ent rt_w) /\
+  ent_params_range (params_to_go (e_params (ew_ent rt_w))) /\
+  (e_totlocked (ew_ent rt_w) <> None /\ e_totspent (ew_ent rt_w) <> None).
+Proof. exact os_ent_roundtrip_ex_hyps. Qed.
+Print Assumptions C15_onstore_ent_roundtrip_example_hypotheses.
+
+Theorem C15_onstore_ent_roundtrip_example_by_theorem :
+  exists d s',
+    S.go_ExportGenesis rt_ws = Ok d /\ d = rt_doc /\
+    S.go_InitGenesis (mk_esworld os_ex_emb os_ex_unemb 1800000000 (esw_bank rt_ws) []) d =
+      Ok (mk_esworld os_ex_emb os_ex_unemb 1800000000 (esw_bank rt_ws) s', tt) /\
+    Rent os_ex_dom os_ex_emb s' (ew_ent rt_w) /\ s' = esw_store rt_ws /\
+    S.go_ExportGenesis (mk_esworld os_ex_emb os_ex_unemb 1800000000 (esw_bank rt_ws) s') = Ok d.
+Proof. exact os_ent_roundtrip_ex_by_theorem. Qed.
+Print Assumptions C15_onstore_ent_roundtrip_example_by_theorem.
